@@ -415,13 +415,18 @@ func ruleN1(p *Prog, r *Report) {
 	const R = "N1"
 	n := 0
 	for _, f := range p.TopFuncs() {
-		if recvName(f) != "Array" || !isExportedAPI(f) {
+		regField := p.childRegistryField(recvName(f))
+		if regField == "" || !isExportedAPI(f) {
 			continue
 		}
+		regOwner := recvName(f)
 		eachInstr(f, func(in ssa.Instruction) {
 			c, ok := in.(*ssa.Call)
 			if !ok || c.Call.StaticCallee() == nil || c.Call.StaticCallee().Name() != "uninlineStorableIfNeeded" {
 				return
+			}
+			if len(c.Call.Args) > 1 && p.isMapKeyStorable(c.Call.Args[1], 0) {
+				return // map keys are never registered as child containers
 			}
 			n++
 			cons := "index-delete:" + p.Name(f)
@@ -437,7 +442,7 @@ func ruleN1(p *Prog, r *Report) {
 			}
 			var del ssa.Instruction
 			eachInstr(f, func(x ssa.Instruction) {
-				if fw, ok := fieldWriteOf(x); ok && fw.Kind == "mapdelete" && fw.Ref.is("Array", "mutableElementIndex") && sameValue(fw.Key, vid) {
+				if fw, ok := fieldWriteOf(x); ok && fw.Kind == "mapdelete" && fw.Ref.is(regOwner, regField) && sameValue(fw.Key, vid) {
 					del = x
 				}
 			})
@@ -488,13 +493,30 @@ func ruleN1(p *Prog, r *Report) {
 			rec(del.Block())
 			r.Decide(okGuard, R, cons, p.InstrPos(del), "index entry deleted, guarded only by tests on the detached id / the new value's id", "deletion of the index entry is "+why)
 			// overwrite with a caller-supplied value: the entry must survive when the new value is the same container
+			// only where the storable comes out of an operation that stored the caller's value (Set), not of a removal
 			hasValueParam := false
-			for _, prm := range f.Params {
-				if typeName(prm.Type()) == "Value" {
-					hasValueParam = true
+			if ex, ok := canon(c.Call.Args[1]).(*ssa.Extract); ok {
+				if src, ok := ex.Tuple.(*ssa.Call); ok {
+					for _, g := range p.Callees(src) {
+						eachInstr(g, func(y ssa.Instruction) {
+							if cc, ok := y.(ssa.CallInstruction); ok && cc.Common().IsInvoke() {
+								nm := cc.Common().Method.Name()
+								tn := typeName(cc.Common().Value.Type())
+								if (nm == "Set" || nm == "Insert") && (tn == "ArraySlab" || tn == "MapSlab") {
+									hasValueParam = true
+								}
+							}
+						})
+					}
 				}
 			}
 			if hasValueParam {
+				// the same-container case may also be told apart up front (identity test between the overwritten storable
+				// and the caller's value, deletion on its false edge)
+				if b, edge := sameContainerTest(f, c.Call.Args[1]); b != nil && edge >= 0 && edgeDominates(b, 1-edge, del.Block()) {
+					r.Ok(R, "index-kept-for-same-child:"+p.Name(f), p.InstrPos(del), "the entry is deleted only on the edge where the overwritten storable is not the caller's value itself")
+					return
+				}
 				dep := controlDependsOnValue(f, del.Block(), func(v ssa.Value) bool {
 					bo, ok := v.(*ssa.BinOp)
 					if !ok || (bo.Op != token.NEQ && bo.Op != token.EQL) {
@@ -512,13 +534,17 @@ func ruleN1(p *Prog, r *Report) {
 	}
 	// bulk removal: a method that pops every element off the root must forget every tracked child index
 	for _, f := range p.TopFuncs() {
-		if recvName(f) != "Array" || !isExportedAPI(f) || len(f.Params) == 0 {
+		regField := p.childRegistryField(recvName(f))
+		regOwner := recvName(f)
+		if regField == "" || !isExportedAPI(f) || len(f.Params) == 0 {
 			continue
 		}
 		var pop ssa.Instruction
 		eachInstr(f, func(in ssa.Instruction) {
-			if c, ok := p.isIfaceMethodCall(in, "ArraySlab", "PopIterate"); ok && c != nil {
-				pop = in
+			for _, it := range []string{"ArraySlab", "MapSlab"} {
+				if c, ok := p.isIfaceMethodCall(in, it, "PopIterate"); ok && c != nil {
+					pop = in
+				}
 			}
 		})
 		if pop == nil {
@@ -528,11 +554,11 @@ func ruleN1(p *Prog, r *Report) {
 		recv := f.Params[0]
 		isReset := func(x ssa.Instruction) bool {
 			if cc, ok := isBuiltinCall(x, "clear"); ok && len(cc.Args) == 1 {
-				if lf, ok := asLoadedField(cc.Args[0]); ok && lf.is("Array", "mutableElementIndex") && sameValue(lf.Base, recv) {
+				if lf, ok := asLoadedField(cc.Args[0]); ok && lf.is(regOwner, regField) && sameValue(lf.Base, recv) {
 					return true
 				}
 			}
-			if fw, ok := fieldWriteOf(x); ok && fw.Kind == "assign" && fw.Ref.is("Array", "mutableElementIndex") && sameValue(fw.Ref.Base, recv) {
+			if fw, ok := fieldWriteOf(x); ok && fw.Kind == "assign" && fw.Ref.is(regOwner, regField) && sameValue(fw.Ref.Base, recv) {
 				v := canon(fw.Val)
 				if isNilConst(v) {
 					return true
@@ -1183,4 +1209,189 @@ func sameContainerTest(f *ssa.Function, x ssa.Value) (*ssa.BasicBlock, int) {
 		}
 	}
 	return nil, -1
+}
+
+// N5 an outdated parent-updater never reads the former parent's slabs: the closure a parent installs in a child
+// first asks an in-memory registry of the parent (a map field keyed by the child's value id, maintained by
+// Set / Remove / PopIterate) whether the child is still an element; only on the "still registered" edge may it
+// reach slab storage. Otherwise a child that was removed or overwritten fails on every later mutation once its
+// former parent has been disposed of (the lookup in the former parent hits missing slabs).
+func ruleN5(p *Prog, r *Report) {
+	const R = "N5"
+	n := 0
+	// functions that can reach SlabStorage.Retrieve
+	readsStorage := func(g *ssa.Function) bool {
+		for h := range p.ReachFine(g) {
+			found := false
+			eachInstr(h, func(in ssa.Instruction) {
+				if _, ok := p.isIfaceMethodCall(in, "SlabStorage", "Retrieve"); ok {
+					found = true
+				}
+			})
+			if found {
+				return true
+			}
+		}
+		return false
+	}
+	for _, cl := range p.parentUpdaterClosures() {
+		top := TopLevel(cl)
+		if !isHandleType(recvName(top)) {
+			continue
+		}
+		n++
+		name := p.Name(cl)
+		// membership tests: branch on the ok of a comma-ok lookup in a map field of a handle, or on the bool result
+		// of a handle method that does not touch storage
+		type test struct {
+			blk  *ssa.BasicBlock
+			succ int // successor taken when the child is registered
+		}
+		var tests []test
+		for _, b := range cl.Blocks {
+			ifi, ok := b.Instrs[len(b.Instrs)-1].(*ssa.If)
+			if !ok {
+				continue
+			}
+			cond := ifi.Cond
+			yes := 0
+			if u, isNot := cond.(*ssa.UnOp); isNot && u.Op == token.NOT {
+				cond, yes = u.X, 1
+			}
+			ex, ok := canon(cond).(*ssa.Extract)
+			if !ok {
+				continue
+			}
+			switch t := ex.Tuple.(type) {
+			case *ssa.Lookup:
+				if fr, ok := asLoadedField(t.X); ok && t.CommaOk && fr.Owner != nil && isHandleType(fr.Owner.Obj().Name()) {
+					tests = append(tests, test{b, yes})
+				}
+			case *ssa.Call:
+				g := t.Call.StaticCallee()
+				if g != nil && isHandleType(recvName(g)) && !readsStorage(g) {
+					if bt, ok := ex.Type().Underlying().(*types.Basic); ok && bt.Kind() == types.Bool {
+						tests = append(tests, test{b, yes})
+					}
+				}
+			}
+		}
+		var bad ssa.Instruction
+		eachInstr(cl, func(in ssa.Instruction) {
+			c, ok := in.(ssa.CallInstruction)
+			if !ok || bad != nil {
+				return
+			}
+			reads := false
+			for _, g := range p.Callees(c) {
+				if readsStorage(g) {
+					reads = true
+				}
+			}
+			if !reads {
+				return
+			}
+			guarded := false
+			for _, t := range tests {
+				if edgeDominates(t.blk, t.succ, in.Block()) {
+					guarded = true
+				}
+			}
+			if !guarded {
+				bad = in
+			}
+		})
+		cons := "registered-before-storage:" + name
+		if bad != nil {
+			r.Bad(R, cons, p.InstrPos(bad), "the parent-updater reads the parent's slabs without first checking an in-memory registry of attached children: after the child was removed or overwritten and the former parent disposed of, every mutation through the child's handle fails with a slab-not-found error (after it was applied)")
+		} else {
+			r.Ok(R, cons, p.Pos(cl.Pos()), "slab storage is reached only on the edge where the parent's in-memory registry still lists the child")
+		}
+	}
+	r.Floor(R, "parent updater closures", 2, n)
+}
+
+// childRegistryField: the field of a handle type that registers attached child containers in memory
+// (a map keyed by ValueID); "" if the type has none.
+func (p *Prog) childRegistryField(typ string) string {
+	if !isHandleType(typ) {
+		return ""
+	}
+	nt := p.LookupType(typ)
+	if nt == nil {
+		return ""
+	}
+	st, ok := nt.Underlying().(*types.Struct)
+	if !ok {
+		return ""
+	}
+	for i := 0; i < st.NumFields(); i++ {
+		if m, ok := st.Field(i).Type().Underlying().(*types.Map); ok && typeName(m.Key()) == "ValueID" {
+			return st.Field(i).Name()
+		}
+	}
+	return ""
+}
+
+// stripConvIface strips interface conversions only (keeps the named interface type the value was declared with).
+func stripConvIface(v ssa.Value) ssa.Value {
+	for {
+		switch x := v.(type) {
+		case *ssa.ChangeInterface:
+			v = x.X
+		case *ssa.MakeInterface:
+			v = x.X
+		default:
+			return v
+		}
+	}
+}
+
+// isMapKeyStorable: the storable is the key of a map element (typed MapKey where it was produced), possibly
+// handed up through package functions as a plain Storable result.
+func (p *Prog) isMapKeyStorable(v ssa.Value, depth int) bool {
+	if depth > 4 {
+		return false
+	}
+	v = stripConvIface(canon(v))
+	if typeName(v.Type()) == "MapKey" {
+		return true
+	}
+	ex, ok := v.(*ssa.Extract)
+	if !ok {
+		return false
+	}
+	if typeName(ex.Type()) == "MapKey" {
+		return true
+	}
+	c, ok := ex.Tuple.(*ssa.Call)
+	if !ok {
+		return false
+	}
+	callees := p.Callees(c)
+	if len(callees) == 0 {
+		return false
+	}
+	for _, g := range callees {
+		any := false
+		for _, ret := range returnsOf(g) {
+			if cl, _ := classifyReturn(ret); cl == retError || ex.Index >= len(ret.Results) {
+				continue
+			}
+			if isNilConst(canon(ret.Results[ex.Index])) {
+				continue // error paths hand back nil
+			}
+			if g.Recover != nil && ret.Block() == g.Recover {
+				continue // exit taken only while panicking through a deferred call
+			}
+			any = true
+			if !p.isMapKeyStorable(ret.Results[ex.Index], depth+1) {
+				return false
+			}
+		}
+		if !any {
+			return false
+		}
+	}
+	return true
 }
